@@ -578,8 +578,9 @@ pub fn gen_c02(run: &mut Run, seed: u64, thorough: bool) {
         }
     }
     if thorough {
-        // exhaustive sequences of length <= 5 over a 9-letter alphabet on ONE key
-        exhaustive_c02(&mut g, 5);
+        // exhaustive sequences of length <= 5 over a 9-letter alphabet on ONE key (one shard does it; the others
+        // enumerate length 4 so that no shard repeats the long enumeration)
+        exhaustive_c02(&mut g, if seed % 1000 == 0 { 5 } else { 4 });
     } else {
         exhaustive_c02(&mut g, 3);
     }
